@@ -198,6 +198,9 @@ func doParsing(mp *msgParser) (err error) {
 	if fieldCount == 0 {
 		return parseError{OrigError: fmt.Sprintf("No Fields detected in %s", string(mp.rawBytes))}
 	}
+	if fieldCount < 3 {
+		return parseError{OrigError: fmt.Sprintf("Message must start with BeginString, BodyLength and MsgType: %s", string(mp.rawBytes))}
+	}
 	if cap(mp.msg.fields) < fieldCount {
 		mp.msg.fields = make([]TagValue, fieldCount)
 	} else {
@@ -235,6 +238,10 @@ func doParsing(mp *msgParser) (err error) {
 	mp.foundBody = false
 	mp.foundTrailer = false
 	for {
+		if mp.fieldIndex >= len(mp.msg.fields) {
+			// Every field has been consumed without reaching the CheckSum.
+			return parseError{OrigError: fmt.Sprintf("Message does not end with CheckSum: %s", string(mp.msg.rawMessage.Bytes()))}
+		}
 		mp.parsedFieldBytes = &mp.msg.fields[mp.fieldIndex]
 		if xmlDataLen > 0 {
 			mp.rawBytes, err = extractXMLDataField(mp.parsedFieldBytes, mp.rawBytes, xmlDataLen)
@@ -312,6 +319,12 @@ func parseGroup(mp *msgParser, tags []Tag) {
 
 	for {
 		mp.fieldIndex++
+		if mp.fieldIndex >= len(mp.msg.fields) {
+			// Ran out of fields inside the group: the message has no trailer. Keep what was
+			// parsed; doParsing reports the missing CheckSum.
+			mp.msg.Body.add(dm)
+			return
+		}
 		mp.parsedFieldBytes = &mp.msg.fields[mp.fieldIndex]
 		mp.rawBytes, _ = extractField(mp.parsedFieldBytes, mp.rawBytes)
 		mp.trailerBytes = mp.rawBytes
